@@ -34,8 +34,9 @@ def bootstrap():
     Pin the interpreter state every check depends on: hash seed 0, /verif and
     the repository under test first on sys.path.  Re-execs once if needed.
     """
-    if os.environ.get("PYTHONHASHSEED") != "0":
-        env = dict(os.environ, PYTHONHASHSEED="0")
+    want = os.environ.get("VERIF_HASHSEED", "0")
+    if os.environ.get("PYTHONHASHSEED") != want:
+        env = dict(os.environ, PYTHONHASHSEED=want)
         os.execve(sys.executable, [sys.executable] + sys.argv, env)
     for path in (VERIF, REPO):
         if path in sys.path:
